@@ -19,7 +19,7 @@ RULE = ("full product reference form {file, file_direct, envelope by path, envel
         "referenced value was located and compared")
 ASSUMPTIONS = ["hashlib", "svmc/refcbor.py",
                "language rule: a payload string consisting only of hex digits is a hex literal, anything else a path"]
-BOUNDS = {"quick": "full product with lengths {0,1,24,256,65536}; hierarchies depth 3, 2^3 inline/path patterns x 5 algorithms",
+BOUNDS = {"quick": "full product with all 8 lengths; hierarchies depth 3, 2^3 inline/path patterns x 5 algorithms",
           "thorough": "full product with all 8 lengths; hierarchies x all 25 (parent, child) algorithm pairs"}
 
 LENS_Q = [0, 1, 24, 256, 65536]
@@ -52,7 +52,7 @@ def find_params(data):
 
 
 def file_cases(tier):
-    lens = LENS_Q if tier == "quick" else LENS_T
+    lens = LENS_T
     out = []
     i = 0
     for field, forms in (("digest", ["file", "file_direct", "envelope-path", "envelope-inline", "raw"]),
